@@ -191,4 +191,20 @@ example : ∃ c, run (flush 2) [.get 1, .insert 0, .put 0, .get 2, .get 1] = .ok
 /-- … and it satisfies the protocol condition of `inv_reachable_partial` -/
 example : runOk (flush 2) [.get 1, .insert 0, .put 0, .get 2, .get 1] := by decide
 
+/-! ### buffer addresses (`cache_flush`): entry `i` of the first half owns `data + i * elemsize` -/
+
+/-- address of the buffer `cache_flush` hands to entry `i` -/
+def bufAddr (data elemsize i : Nat) : Nat := data + i * elemsize
+
+/-- **no two entries share a buffer**, whatever the capacity and the element size (in particular beyond 4 GiB):
+    distinct entries own disjoint byte ranges. -/
+theorem buffer_addresses_distinct (data elemsize i j : Nat) (hs : 0 < elemsize) (hij : i < j) :
+    bufAddr data elemsize i + elemsize ≤ bufAddr data elemsize j := by
+  unfold bufAddr
+  have : (i + 1) * elemsize ≤ j * elemsize := Nat.mul_le_mul_right elemsize hij
+  rw [Nat.add_mul, Nat.one_mul] at this
+  omega
+
+example : bufAddr 4096 (2^30) 4 = 4096 + 2^32 := by decide
+
 end Kdf.Props.C06
